@@ -261,13 +261,21 @@ def judgeCase (_k : Nat) (lines : List String) : Verdict := Id.run do
       let before := okWrites.filter fun w => w.ev.op.id != p.ev.op.id && w.ev.resp < p.ev.inv
       if initPresent || !before.isEmpty then
         vio := vio ++ [("C07.inm.success-on-existing-key", s!"op{p.ev.op.id}-succeeded-although-the-key-held-an-object-before-it-was-invoked")]
+  -- the set-up left a null version underneath a delete marker in a bucket that is not Enabled
+  let hiddenNull : Bool := match evs.toList.head? with
+    | some e => (match findBucket st e.op.b with
+      | some bk => bk.ver != .enabled && (nullRow bk e.op.k).isSome &&
+          (match latestRow bk e.op.k with | some r => r.dm | none => true)
+      | none => false)
+    | none => false
   if !initPresent then
     for p in conc do
       if p.ev.op.inm && p.errKind == "PreconditionFailed" && p.ev.op.im == "~" then
         -- the key was absent during the whole call unless some successful write was invoked before the response
         let maybe := okWrites.filter fun w => w.ev.inv < p.ev.resp
         if maybe.isEmpty then
-          vio := vio ++ [("C07.inm.failed-on-absent-key", s!"op{p.ev.op.id}-was-refused-although-no-successful-write-began-before-it-returned")]
+          vio := vio ++ [(if hiddenNull then "C07.inm.refused-on-absent-key-hidden-null-version" else "C07.inm.failed-on-absent-key",
+            s!"op{p.ev.op.id}-was-refused-although-no-successful-write-began-before-it-returned")]
   -- If-Match
   let imOk := conc.filter fun i => i.ok && i.ev.op.im != "~" && i.ev.op.im != "*" && (i.ev.op.name == "put" || i.ev.op.name == "cmpl" || i.ev.op.name == "del")
   for p in imOk do
